@@ -3,7 +3,7 @@
    Proofs/Dgram_lemmas.v, followed by Print Assumptions.  Model: Model/Dgram.v (the code after
    the repairs F3, F4, F10, F16; `as_found` = the code before them).                          *)
 From Coq Require Import List NArith Ascii Bool.
-From SV Require Import Lib.Bytes Lib.DgramLib Model.Chan Model.Dgram Proofs.Dgram_lemmas Proofs.DgramServer_lemmas Gen.Consts.
+From SV Require Import Lib.Bytes Lib.DgramLib Model.Chan Model.Dgram Proofs.Dgram_lemmas Proofs.DgramServer_lemmas Proofs.DgramSystem_lemmas Gen.Consts.
 Import ListNotations.
 Local Open Scope N_scope.
 
@@ -312,6 +312,87 @@ Example c10_server_alias_example :
   let s := fst (fst (srun all_fixed w_scfg s_init w_alias)) in
   map fst (s_h s) = [0; 1] /\ s_dnsh s = [(7, 1)] /\ snd (srun all_fixed w_scfg s_init w_alias) = Ok tt.
 Proof. exact alias_state. Qed.
+
+(* THE TWO-ENDED SYSTEM (Proofs/DgramSystem_lemmas.v): the client step function and the server iteration composed
+   over two reliable FIFO links — `ystep`: a listener event at the client (its frames are appended to the up
+   link, DNS_REQ frames tagged with the ghost number of the query), a server iteration reading any number of
+   frames off the up link (its frames are appended to the down link, DNS_RESPONSE frames tagged with the ghost
+   tag of the DnsProxy that produced them), or the client handling the next frame of the down link.
+   Hypothesis, stated ONCE for the system (no_stale_alloc): whenever the client puts a DNS_REQ for identifier ch
+   on the wire, nothing of a previous DNS incarnation of ch is in flight — no DNS_REQ of ch on the up link, no
+   DnsProxy of ch on the server (pending, or aliased), no DNS_RESPONSE of ch on the down link.
+   Conclusion (no_cross_sys): along the whole run, whenever the client handles a frame produced by the DnsProxy
+   of query t, every datagram it emits for a query is for query t — a reply is never delivered to another
+   requester.  All runs: any listener events (DNS, UDP, TCP accepts; sizes as the kernel delivers them), any
+   server schedules / ready sets / socket behaviour, any times, any delivery order the FIFO links allow. *)
+Theorem c10_no_cross_composed :
+  forall cc sc, cfg_ok' cc -> forall evs,
+  accepts_sane cc sc y_init evs -> no_stale_alloc cc sc y_init evs -> no_cross_sys cc sc y_init evs.
+Proof. intros cc sc H evs. exact (system_no_cross_init cc sc H evs). Qed.
+Print Assumptions c10_no_cross_composed.
+
+(* the system invariant behind it (every (identifier, tag) pair in flight — up link, server handlers, down link —
+   is owned by the query that currently holds the identifier at the client, if any) holds initially and is
+   preserved by every system step that respects the hypothesis; each step of such a run is cross-free *)
+Theorem c10_system_invariant :
+  forall cc sc, cfg_ok' cc -> forall y e y' ob,
+  yinv cc y -> match e with YAccept ce => ev_sane cc (y_c y) ce | _ => True end ->
+  ystep cc sc y e = Some (y', ob) ->
+  match ob with
+  | ObsClient _ o => forall ch d, In (OFrame ch CMD_DNS_REQ d) o -> ~ in_flight ch y
+  | ObsServer _ => True
+  end ->
+  yinv cc y' /\
+  match ob with
+  | ObsClient (Some t) o => forall q f a d, In (ODgram (Some q) f a d) o -> q = t
+  | _ => True
+  end.
+Proof. exact ystep_inv. Qed.
+Print Assumptions c10_system_invariant.
+
+(* SERVER half of it, for every code path and both code versions: an iteration never invents an
+   (identifier, tag) pair — handlers afterwards and DNS_RESPONSE frames emitted carry pairs of handlers before or
+   of DNS_REQ frames dispatched *)
+Theorem c10_server_tags_move_only :
+  forall (P : N -> N -> Prop) fx cfg s e s' o,
+  s_tags P s -> Forall (frame_tags P) (se_frames e) -> sstep fx cfg s e = Ok (s', o) ->
+  s_tags P s' /\ Forall (out_tags P) o.
+Proof. exact sstep_tags. Qed.
+Print Assumptions c10_server_tags_move_only.
+
+(* the DNS-only two-ended system never raises — on EITHER side, with no hypothesis on the run: any schedule of
+   DNS listener events / server iterations / deliveries, any resolver-socket behaviour, send errors, times, number
+   of identifiers (exhaustion and early re-use included: stale replies are mis-delivered, c10_stale_reuse_example,
+   but nothing crashes).  `raises y e x`: the component that event e runs in state y returns Crash x *)
+Theorem c10_system_dns_never_raises :
+  forall cc sc, cfg_ok' cc -> forall evs,
+  Forall dns_event evs -> never_raises cc sc y_init evs.
+Proof. intros cc sc H evs. apply (system_dns_never_raises cc sc H). apply dinv_init. Qed.
+Print Assumptions c10_system_dns_never_raises.
+
+(* non-vacuity: a run satisfying both hypotheses in which the reply reaches its asker *)
+Example c10_composed_life_cycle :
+  accepts_sane w_cfgN w_scfg y_init w_sys_life /\ no_stale_alloc w_cfgN w_scfg y_init w_sys_life /\
+  yrun w_cfgN w_scfg y_init w_sys_life =
+  [ObsClient None [OFrame 1 CMD_DNS_REQ ["q"%char]];
+   ObsServer [SConnect 0 (["n"%char], 53) true; SSend 0 ["q"%char] true];
+   ObsServer [SFrame 1 CMD_DNS_RESPONSE ["r"%char] 0];
+   ObsClient (Some 0) [ODgram (Some 0) None w_a1 ["r"%char]]].
+Proof. split; [exact (proj1 life_hyps)|split; [exact (proj2 life_hyps)|exact life_run]]. Qed.
+
+(* the hypothesis is needed: with one identifier (MAX_CHANNEL = 1) query 0 expires at the client while its
+   DnsProxy is pending, query 1 of another asker re-uses identifier 1, and the answer to query 0 (tag 0) is
+   delivered to the asker of query 1 — replayed on the real code by harness/props/dgram_common.py
+   system_stale_witness *)
+Theorem c10_stale_reuse_example :
+  accepts_sane w_cfg1 w_scfg y_init w_sys_stale /\ ~ no_stale_alloc w_cfg1 w_scfg y_init w_sys_stale /\
+  ~ no_cross_sys w_cfg1 w_scfg y_init w_sys_stale /\
+  last (yrun w_cfg1 w_scfg y_init w_sys_stale) (ObsServer []) = ObsClient (Some 0) [ODgram (Some 1) None w_a2 ["o"%char]].
+Proof.
+  destruct stale_cross as (A & B & C). split; [exact A|]. split; [exact C|]. split; [exact B|].
+  rewrite stale_run. reflexivity.
+Qed.
+Print Assumptions c10_stale_reuse_example.
 
 (* ---- the code as found (before the repairs): refuted, witnesses replayed on the real code ---- *)
 Theorem c10_f3_refuted : exists cfg evs,
